@@ -14,11 +14,11 @@ from ..model import src
 from ..report import Report, key_of
 from ..terms import dag_nodes, pretty
 from ..types import Ctx
-from .common import TRUSTED_BASE, cfg_nodes_for, effects_of, where
+from .common import TRUSTED_BASE, cfg_nodes_for, effects_of, inl, subst_single_assign, where
 
 
 def _self_calls(A, f, name):
-    return [n for n in A.typer.own_nodes(f) if isinstance(n, ast.Call) and isinstance(n.func, ast.Attribute) and n.func.attr == name
+    return [n for n in inl(A, f) if isinstance(n, ast.Call) and isinstance(n.func, ast.Attribute) and n.func.attr == name
             and isinstance(n.func.value, ast.Name) and n.func.value.id == 'self']
 
 
@@ -109,7 +109,7 @@ def run(A, R: Report, thorough: bool):
                         if p is not None:
                             problems.append('after a failed load a path returns without recomputing')
                     else:
-                        bad = [cfg.nodes[d] for d in nx.descendants(cfg.g, g.id) if cfg.nodes[d].kind == 'stmt' and isinstance(cfg.nodes[d].ast, ast.Return)
+                        bad = [cfg.nodes[d] for d in nx.descendants(cfg.g, g.id) if cfg.nodes[d].kind == 'stmt' and isinstance(cfg.nodes[d].ast, ast.Return) and cfg.nodes[d].owner is f.node
                                and src(cfg.nodes[d].ast.value or ast.Constant(None)) != 'NO_VALUE']
                         if bad:
                             problems.append('after a failed load get() returns something other than NO_VALUE')
@@ -138,7 +138,7 @@ def run(A, R: Report, thorough: bool):
     for rn in raises:
         for a, pol in cfg.facts_at(rn.id):
             if isinstance(a, ast.Compare) and len(a.ops) == 1 and ((isinstance(a.ops[0], ast.NotEq) and pol) or (isinstance(a.ops[0], ast.Eq) and not pol)):
-                sides = [a.left, a.comparators[0]]
+                sides = [subst_single_assign(A, lv, a.left), subst_single_assign(A, lv, a.comparators[0])]
                 names = [src(x) for x in sides]
                 if 'key' in names:
                     other = sides[1 - names.index('key')]
@@ -146,14 +146,15 @@ def run(A, R: Report, thorough: bool):
                         key_raise = rn
                         loaded_var = src(other.value)
     rets = [n for n in A.typer.own_nodes(lv) if isinstance(n, ast.Return) and n.value is not None]
-    ret_ok = bool(rets) and all(isinstance(r.value, ast.Subscript) and src(r.value.value) == loaded_var and isinstance(r.value.slice, ast.Constant) and r.value.slice.value == 'value' for r in rets)
+    rvals = [subst_single_assign(A, lv, r.value) for r in rets]
+    ret_ok = bool(rets) and all(isinstance(v, ast.Subscript) and src(v.value) == loaded_var and isinstance(v.slice, ast.Constant) and v.slice.value == 'value' for v in rvals)
     dom_ok = key_raise is not None and all(_test_dominates(cfg, key_raise, r) for r in rets)
     R.check(key_raise is not None and ret_ok and dom_ok, 'R14.3', 'JsonCache.load_value', key_of('key-check', key_raise is not None, ret_ok, dom_ok),
             f'key verified on `{loaded_var}` before its value is returned', 'stored key is not verified against the requested key before the value is returned (a hash-colliding or misplaced file would be returned as this key\'s value)', where=where(lv))
     sv = jc.methods.get('save_value')
-    dumps = [n for n in A.typer.own_nodes(sv) if isinstance(n, ast.Call) and src(n.func).endswith('dump') and n.args and isinstance(n.args[0], ast.Dict)]
+    dumps = [n for n in inl(A, sv) if isinstance(n, ast.Call) and src(n.func).endswith('dump') and n.args and isinstance(subst_single_assign(A, sv, n.args[0]), ast.Dict)]
     if dumps:
-        d = dumps[0].args[0]
+        d = subst_single_assign(A, sv, dumps[0].args[0])
         m = {k.value: src(v) for k, v in zip(d.keys, d.values) if isinstance(k, ast.Constant)}
         R.check(m.get('key') == 'key' and m.get('value') == 'value', 'R14.3', 'JsonCache.save_value', key_of('record', sorted(m.items())), 'record stores key and value',
                 f'stored record does not bind key->key, value->value: {m}', where=where(sv))
